@@ -46,7 +46,8 @@ func buildPlainValueFromElement(elem r.Element) any {
 	case *value.Number:
 		return vv.GetValue()
 	case *value.Array:
-		var resultList []interface{}
+		// an empty list is the JSON array [], not null
+		resultList := []interface{}{}
 		for _, vi := range vv.GetValue() {
 			resultList = append(resultList, buildPlainValueFromElement(vi))
 		}
